@@ -4,9 +4,12 @@
    by evaluation of the whole finite table inside the kernel).  Model theorems are about Model/Transport.v
    (proofs in Proofs/TransportProofs.v), which the correspondence stage ties to the running code.
 
-   Table coordinates: sv = the endpoint is a server; ph = phase 0..8 (K0 pre-kexinit, K1 kex-running,
+   Table coordinates: sv = the endpoint is a server; ph = phase 0..12 (K0 pre-kexinit, K1 kex-running,
    K2 own NEWKEYS sent / peer's awaited, E0 post-newkeys-pre-service, A0 auth-running, A1 auth-done,
-   C0 authenticated, R0 rekey-running, R1 rekey-newkeys-sent); sk = strict KEX negotiated; va = variant 0..3
+   C0 authenticated, R0 rekey-running, R1 rekey-newkeys-sent; from a second session with several methods:
+   M0 keyboard-interactive attempt running, M1 server: it failed / client: answer sent, M2 server: publickey
+   attempt failed / client: keyboard-interactive failed and password request outstanding, M3 server: password
+   attempt failed / client: authenticated through keyboard-interactive); sk = strict KEX negotiated; va = variant 0..3
    (well-formed, empty body, last byte cut, one trailing byte); t = message type 0..255.
    Verdicts: VH handled, VU answered UNIMPLEMENTED (session otherwise identical to the untampered twin),
    VF connection ended at once, VL no reaction but connection ended later with nothing else different,
@@ -14,7 +17,7 @@
 From AV Require Import Base.Prelude Model.Transport Gen.MsgGate Proofs.MsgGateProofs Proofs.TransportProofs.
 
 (* Every cell of the table was probed. *)
-Theorem C06_table_total : forall sv ph sk va t, 0 <= ph < 9 -> 0 <= va < 4 -> 0 <= t < 256 ->
+Theorem C06_table_total : forall sv ph sk va t, 0 <= ph < 13 -> 0 <= va < 4 -> 0 <= t < 256 ->
   lookup gate_row sv ph sk va t <> VX.
 Proof. exact fact_total. Qed.
 Print Assumptions C06_table_total.
@@ -22,21 +25,32 @@ Print Assumptions C06_table_total.
 (* Before the first key exchange completes only the message the exchange calls for next is handled:
    KEXINIT first, then the exchange-specific message of the peer's role, then NEWKEYS - in every role,
    with and without strict KEX, well-formed or damaged. *)
-Theorem C06_prekex : forall sv ph sk va t, 0 <= ph < 9 -> 0 <= va < 4 -> 0 <= t < 256 ->
+Theorem C06_prekex : forall sv ph sk va t, 0 <= ph < 13 -> 0 <= va < 4 -> 0 <= t < 256 ->
   ph <= 2 -> lookup gate_row sv ph sk va t = VH -> calls_for sv ph t = true.
 Proof. exact fact_prekex. Qed.
 Print Assumptions C06_prekex.
 
-(* Before authentication completes nothing of the connection layer (types 80..255) is handled. *)
-Theorem C06_preauth : forall sv ph sk va t, 0 <= ph < 9 -> 0 <= va < 4 -> 0 <= t < 256 ->
-  ph <= 4 -> lookup gate_row sv ph sk va t = VH -> t <= 79.
+(* Before authentication completes (preauth_phase: every phase up to A0, and the phases around finished and
+   running attempts M0..M3 except the client's M3) nothing of the connection layer (types 80..255) is handled. *)
+Theorem C06_preauth : forall sv ph sk va t, 0 <= ph < 13 -> 0 <= va < 4 -> 0 <= t < 256 ->
+  preauth_phase sv ph = true -> lookup gate_row sv ph sk va t = VH -> t <= 79.
 Proof. exact fact_preauth. Qed.
 Print Assumptions C06_preauth.
+
+(* Method-specific authentication messages (60..79: INFO_REQUEST/INFO_RESPONSE, PK_OK, PASSWD_CHANGEREQ, ...) end
+   the connection whenever no attempt is in progress (no_attempt): on a server in every phase except while its
+   keyboard-interactive challenge is outstanding - in particular right after an attempt of any method family was
+   answered with USERAUTH_FAILURE, even when the stale answer is one the application's validator would accept; on
+   a client before its first request and after authentication completed. *)
+Theorem C06_stale_attempt : forall sv ph sk va t, 0 <= ph < 13 -> 0 <= va < 4 -> 0 <= t < 256 ->
+  no_attempt sv ph = true -> 60 <= t <= 79 -> lookup gate_row sv ph sk va t = VF.
+Proof. exact fact_stale. Qed.
+Print Assumptions C06_stale_attempt.
 
 (* A message only the other role may send (to a client: SERVICE_REQUEST, KEX init, USERAUTH_REQUEST,
    INFO_RESPONSE; to a server: SERVICE_ACCEPT, KEX reply, USERAUTH_FAILURE/SUCCESS/BANNER, type 60) is never
    handled, in any phase, strict or not, well-formed or damaged. *)
-Theorem C06_role : forall sv ph sk va t, 0 <= ph < 9 -> 0 <= va < 4 -> 0 <= t < 256 ->
+Theorem C06_role : forall sv ph sk va t, 0 <= ph < 13 -> 0 <= va < 4 -> 0 <= t < 256 ->
   foreign_to sv t = true -> lookup gate_row sv ph sk va t <> VH.
 Proof. exact fact_role. Qed.
 Print Assumptions C06_role.
@@ -45,7 +59,7 @@ Print Assumptions C06_role.
    UNIMPLEMENTED and any first packet other than KEXINIT - ends the connection: at once in K1 and K2, and in K0
    (where the endpoint cannot know yet that the peer is strict) at the latest when the KEXINIT arrives with a
    non-zero sequence number, nothing else having happened. *)
-Theorem C06_strict : forall sv ph va t, 0 <= ph < 9 -> 0 <= va < 4 -> 0 <= t < 256 ->
+Theorem C06_strict : forall sv ph va t, 0 <= ph < 13 -> 0 <= va < 4 -> 0 <= t < 256 ->
   ph <= 2 -> calls_for sv ph t = false ->
   (ph = 0 -> lookup gate_row sv ph true va t = VF \/ lookup gate_row sv ph true va t = VL) /\
   (1 <= ph -> lookup gate_row sv ph true va t = VF).
@@ -54,7 +68,8 @@ Print Assumptions C06_strict.
 
 (* After authentication completed: a server ignores or refuses a further USERAUTH_REQUEST, a client refuses a
    further USERAUTH_FAILURE or USERAUTH_SUCCESS. *)
-Theorem C06_postauth : forall sv ph sk va t, 0 <= ph < 9 -> 0 <= va < 4 -> 0 <= t < 256 -> 5 <= ph ->
+Theorem C06_postauth : forall sv ph sk va t, 0 <= ph < 13 -> 0 <= va < 4 -> 0 <= t < 256 ->
+  postauth_phase sv ph = true ->
   (sv = true -> t = 50 -> lookup gate_row sv ph sk va t = VI \/ lookup gate_row sv ph sk va t = VF) /\
   (sv = false -> t = 51 \/ t = 52 -> lookup gate_row sv ph sk va t = VF).
 Proof. exact fact_postauth. Qed.
@@ -62,7 +77,7 @@ Print Assumptions C06_postauth.
 
 (* Message numbers with no meaning are answered UNIMPLEMENTED or end the connection; never handled, never
    silently swallowed. *)
-Theorem C06_unassigned : forall sv ph sk va t, 0 <= ph < 9 -> 0 <= va < 4 -> 0 <= t < 256 ->
+Theorem C06_unassigned : forall sv ph sk va t, 0 <= ph < 13 -> 0 <= va < 4 -> 0 <= t < 256 ->
   unassigned t = true ->
   lookup gate_row sv ph sk va t = VU \/ lookup gate_row sv ph sk va t = VF \/ lookup gate_row sv ph sk va t = VL.
 Proof. exact fact_unassigned. Qed.
@@ -70,7 +85,7 @@ Print Assumptions C06_unassigned.
 
 (* A damaged body (empty, truncated, trailing byte) never makes a message more acceptable: it ends the
    connection or is treated exactly like the well-formed message. *)
-Theorem C06_malformed : forall sv ph sk va t, 0 <= ph < 9 -> 0 <= va < 4 -> 0 <= t < 256 -> va <> 0 ->
+Theorem C06_malformed : forall sv ph sk va t, 0 <= ph < 13 -> 0 <= va < 4 -> 0 <= t < 256 -> va <> 0 ->
   lookup gate_row sv ph sk va t = VF \/ lookup gate_row sv ph sk va t = lookup gate_row sv ph sk 0 t.
 Proof. exact fact_malformed. Qed.
 Print Assumptions C06_malformed.
@@ -146,6 +161,21 @@ Theorem C06_identity_final : forall u s (l : list event),
 Proof. intros u s l H. apply (run_post_inv true true u l s). right. exact H. Qed.
 Print Assumptions C06_identity_final.
 
+(* Method-specific authentication messages have no effect unless an attempt is in progress: in EVERY state without
+   an authentication object a message of type 60..79 ends the connection; and an object is retired by every way an
+   attempt can end - send_userauth_failure and send_userauth_success both clear it, and every server-side
+   authentication task either ends that way or is the one that sends the keyboard-interactive challenge. *)
+Theorem C06_method_msgs_need_attempt :
+  (forall c seq t cls, auth c = 0 -> 60 <= t <= 79 -> closed (dispatch c seq t cls) = true) /\
+  (forall c, auth (send_userauth_failure c) = 0) /\ (forall c, auth (send_userauth_success c) = 0) /\
+  (forall c k, not_server_task k = false ->
+     auth (run_task c k) = 0 \/ (exists u, k = TServerKbd u /\ auth (run_task c k) = auth c)).
+Proof.
+  split; [exact (method_msg_needs_attempt true true)|].
+  split; [exact failure_retires|]. split; [exact success_retires | exact server_task_retires].
+Qed.
+Print Assumptions C06_method_msgs_need_attempt.
+
 (* ---- about the OLD definitions (the code before /repo 5ecc05e and 9276b6d), kept as witnesses ---------------- *)
 
 (* run_old: success was accepted on the mere existence of an authentication object.  There is a run -
@@ -172,6 +202,15 @@ Print Assumptions C06_early_kexinit_old_refuted.
 (* the witness run of C06_success_outstanding_old_refuted ends the connection in the model of record *)
 Example C06_ex_unsolicited_now_fatal : closed (cn (run (init false) unsolicited_witness)) = true.
 Proof. exact (success_unsolicited_fixed_witness true). Qed.
+
+(* a keyboard-interactive attempt answered wrongly, then a bare INFO_RESPONSE carrying the right answer: the
+   connection ends, nobody is authenticated *)
+Example C06_ex_stale_info_response :
+  let s := run (init true) kbd_failed in
+  closed (cn s) = false /\ auth (cn s) = 0 /\ auth_complete (cn s) = false /\
+  let s' := run s [EvRecv 61 0; EvSettle] in
+  closed (cn s') = true /\ auth_complete (cn s') = false /\ authed (cn s') = 0.
+Proof. exact (kbd_failed_then_right_answer true true). Qed.
 
 (* ---- non-vacuity ---------------------------------------------------------------------------------------------- *)
 Example C06_ex_handled_kexinit : lookup gate_row false 0 true 0 20 = VH.
